@@ -52,7 +52,7 @@ def biased_path(draw, ctx, min_size=0):
     mode = draw(st.integers(0, 4))
     allp = [list(p) for p in gen.paths_of(ctx)]
     if mode == 0 or not allp:
-        return draw(st.lists(st.sampled_from(KEYS), min_size=min_size, max_size=4))
+        return draw(st.lists(st.sampled_from(KEYS), min_size=max(min_size, draw(st.sampled_from([0, 1, 1, 2]))), max_size=4))
     p = list(draw(st.sampled_from(allp)))
     if mode == 4:
         # the documented string test: the last component is str() of the scalar found there
